@@ -130,12 +130,15 @@ Definition pstate_of (sd : stmt) (params : bytes) : pstate :=
      p_long := sd_long sd; p_bound := sd_bound sd |}.
 Definition params_valid (sd : stmt) (params : bytes) : bool :=
   pull_all_ok (S (N.to_nat (sd_params sd))) (pstate_of sd params).
+(* validate() has already read the header: the types sent with this execution are bound to the
+   statement whether or not the shim goes on to pull any parameter *)
+Definition pstate_hdr (sd : stmt) (params : bytes) : pstate :=
+  match params_header (pstate_of sd params) with ROk p => p | _ => pstate_of sd params end.
 
 Definition on_execute (id : N) (sd : stmt) (params : bytes) (sc : scripts) : M (stmt * scripts) :=
   let '(x, sc') := pop_x sc in
   log_call (CExecute id) ;;;
-  let p0 := {| p_params := sd_params sd; p_input := params; p_nullmap := None; p_col := 0;
-               p_long := sd_long sd; p_bound := sd_bound sd |} in
+  let p0 := pstate_hdr sd params in
   p <- pull_params (S (N.to_nat (sd_params sd))) (x_pull x) (x_convs x) p0 ;;
   (* bound_types is written through a &mut into the statement *)
   let sd' := {| sd_params := sd_params sd; sd_bound := p_bound p; sd_long := sd_long sd |} in
